@@ -386,7 +386,7 @@ def main(tier, seed):
     common.proof_coverage(res, pres, "make -k Props/Properties_C17.vo Props/Examples_C17.vo (coqc 8.16.1) + Print Assumptions",
                           ["Coq 8.16.1 kernel incl. vm_compute (finite check over the generated table of writable symbols)",
                            "translators t6_globals.py (readelf/objdump/nm on the rebuilt .so; nm is the second opinion), t9_strerror.py "
-                           "(textual shape of imb_set_errno/imb_get_errno and the mirror's storage class), t0_consts.py",
+                           "(imb_set_errno/imb_get_errno translated statement by statement, cmini.py, and the mirror's storage class), t0_consts.py",
                            "harness/k6_threads.c + harness/imbh.c",
                            "modelled, not verified: API calls are atomic w.r.t. the globals (the CPUID cache is treated at word granularity "
                            "separately); per-manager state is the ring model plus a feature word; real data races are a run-time matter "
